@@ -9,11 +9,7 @@
 (* nothing about the result (Open): the only demand is that the call       *)
 (* returns normally and that a returned error formats.                     *)
 (***************************************************************************)
-EXTENDS GenCarrier
-Hostile == <<"nan", "+inf", "-inf", "f32nan", "f32inf", "decnan", "decinf", "decneginf", "jsonempty", "jsonabc", "jsonhuge",
-             "jsontiny", "jsonminus", "jsonhex", "typedslice", "typedmap", "anymapkey", "struct", "chan", "nilptr", "func",
-             "complex", "uintptr", "int64min", "uint64max", "f64big", "f64max", "bytes", "rune", "nilslice", "nilmap",
-             "badutf8", "selfref">>
+EXTENDS GenCarrier, HostileKinds
 HInit == bucket \in 1..Len(Hostile) /\ idx = 0
 HNext == idx = 0 /\ \E pos \in 1..5 : idx' = pos /\ UNCHANGED bucket
 HSpec == HInit /\ [][HNext]_<<bucket, idx>>
